@@ -70,6 +70,13 @@ def run(prog, rep):
                             raw = canon(tr.operand(t["args"][2]))
                             entries.append((canon(strip(tr.operand(t["args"][1]))), canon(strip(tr.operand(t["args"][2]))), "cast(" in raw or " as " in raw.replace("arg:self as ", "")))
                     ends = [x for x in region if body.term(x)["k"] == "call" and is_callee(body.term(x), r"SerializeMap::end$")]
+                    if not ends:
+                        # `map.end()` shared by all arms after the match: every path from the arm to a return that is not a failure
+                        # of an entry passes it
+                        from ..engines.e2_errflow import _failure_blocks
+                        all_ends = {x for x, tx in body.calls() if is_callee(tx, r"SerializeMap::end$")}
+                        if all_ends and not (body.reach_from([g.dst], avoid=all_ends | _failure_blocks(body)) & set(body.return_blocks())):
+                            ends = sorted(all_ends)
                     tags[g.variant] = (entries, bool(ends))
                 break
         if sw is None:
